@@ -127,7 +127,7 @@ func runC12(cfg *vh.Config) error {
 			if r.Chance(12) {
 				scope = "all"
 			}
-			props = append(props, genProp(r, fmt.Sprintf("f%d", i), scope))
+			props = append(props, genProp(r, fmt.Sprintf("f%d", i), scope, theEnum))
 		}
 		// declarations expected not to compile go alone
 		var together []genDecl
